@@ -3,7 +3,7 @@
    All distance comparisons are in sqrt-free squared form over exact rationals (see the "SQ:"
    comments of the model):  dist_le m q x w = "distance_m(q,x) <= w",  dist_lt = "... < w". *)
 From Coq Require Import QArith List NArith ZArith Bool Arith.
-From Kyro Require Import Model.QCache Proofs.QCacheProofs Proofs.QCacheInv Proofs.QCacheEngine.
+From Kyro Require Import Model.QCache Proofs.QCacheProofs Proofs.QCacheInv Proofs.QCacheEngine Proofs.QCacheKnn.
 Import ListNotations.
 Open Scope Q_scope.
 
@@ -19,20 +19,21 @@ Theorem C07_cauchy_schwarz : forall a b : vec, dot a b * dot a b <= sumsq a * su
 Proof. exact cauchy_schwarz. Qed.
 
 (* Every cached entry is valid after every sequential history, for each metric, relative to an
-   abstract exact k-NN oracle (premises O_live, O_omit) whose reported distances are
+   abstract exact k-NN oracle (premises O_live, O_len, O_omit) whose reported distances are
    related to vectors by an arbitrary relation isd. *)
 Theorem C07_entry_valid : forall (m : metric) (isd : vec -> vec -> Q -> Prop)
     (fresh_search : collection -> vec -> nat -> list result) (cfg : config),
   (forall c q k id d, In (id, d) (fresh_search c q k) -> exists v, c_get c id = Some v /\ isd q v d) ->
-  (forall c q k id v, c_get c id = Some v -> ~ In id (map fst (fresh_search c q k)) ->
+  (forall c q k, (length (fresh_search c q k) <= k)%nat) ->
+  (forall c q k id v, (1 <= k)%nat -> c_get c id = Some v -> ~ In id (map fst (fresh_search c q k)) ->
        length (fresh_search c q k) = k /\
        exists w, worst (fresh_search c q k) = Some w /\ dist_lt m q v w = false) ->
   forall (ops : list eop) (e : entry),
   let st := erun (pre_m m) (dist_le m) fresh_search cfg einit ops in
   In e (s_entries (e_cache st)) -> Valid (dist_lt m) isd (e_coll st) e.
 Proof.
-  intros m isd fs cfg O1 O3.
-  exact (entry_valid (pre_m m) (dist_le m) (dist_lt m) isd fs cfg (pre_m_sound m) (dist_lt_le m) O1 O3).
+  intros m isd fs cfg O1 O2 O3.
+  exact (entry_valid (pre_m m) (dist_le m) (dist_lt m) isd fs cfg (pre_m_sound m) (dist_lt_le m) O1 O2 O3).
 Qed.
 
 (* An engine cache hit is the k-prefix of a valid entry stored under the request's own scope with
@@ -40,7 +41,8 @@ Qed.
 Theorem C07_hit_valid : forall (m : metric) (isd : vec -> vec -> Q -> Prop)
     (fresh_search : collection -> vec -> nat -> list result) (cfg : config),
   (forall c q k id d, In (id, d) (fresh_search c q k) -> exists v, c_get c id = Some v /\ isd q v d) ->
-  (forall c q k id v, c_get c id = Some v -> ~ In id (map fst (fresh_search c q k)) ->
+  (forall c q k, (length (fresh_search c q k) <= k)%nat) ->
+  (forall c q k id v, (1 <= k)%nat -> c_get c id = Some v -> ~ In id (map fst (fresh_search c q k)) ->
        length (fresh_search c q k) = k /\
        exists w, worst (fresh_search c q k) = Some w /\ dist_lt m q v w = false) ->
   forall (ops : list eop) (scope : N) (q : vec) (k : nat) (r : list result) (st' : estate),
@@ -49,8 +51,8 @@ Theorem C07_hit_valid : forall (m : metric) (isd : vec -> vec -> Q -> Prop)
   exists e, In e (s_entries (e_cache st)) /\ Valid (dist_lt m) isd (e_coll st) e /\
             e_scope e = scope /\ (k <= e_kreq e)%nat /\ r = firstn k (e_results e).
 Proof.
-  intros m isd fs cfg O1 O3.
-  exact (hit_valid (pre_m m) (dist_le m) (dist_lt m) isd fs cfg (pre_m_sound m) (dist_lt_le m) O1 O3).
+  intros m isd fs cfg O1 O2 O3.
+  exact (hit_valid (pre_m m) (dist_le m) (dist_lt m) isd fs cfg (pre_m_sound m) (dist_lt_le m) O1 O2 O3).
 Qed.
 
 (* Scope and k, on BOTH lookup paths of get_scoped, in every reachable cache state. *)
@@ -61,7 +63,15 @@ Theorem C07_scope : forall (cfg : config) (ops : list op) (scope : N) (q : vec) 
             r = firstn k (e_results e).
 Proof. exact served_scope_k. Qed.
 
-Theorem C07_k_monotone : forall (cfg : config) (ops : list op) (scope : N) (q : vec) (k : nat) (r : list result),
+(* Full statement intended by DESIGN (C07_k_monotone): "an entry with k_req is used only for
+   k <= k_req, AND its k-prefix is itself valid", i.e. additionally
+     forall c e k, Valid dlt isd c e -> (k <= e_kreq e)%nat -> sorted-by-distance (e_results e) ->
+       Valid dlt isd c (mkEntry (e_scope e) (e_qkey e) (e_query e) k (firstn k (e_results e))).
+   Proved here: the first half, on both lookup paths (an entry is only used for k <= k_req and what
+   is served is exactly its k-prefix).  Missing: the second half; it needs two further premises
+   (the oracle returns results sorted by distance; dist_lt is monotone in the boundary and agrees
+   with the reported distances) that are not part of the model yet. *)
+Theorem C07_k_monotone_partial : forall (cfg : config) (ops : list op) (scope : N) (q : vec) (k : nat) (r : list result),
   let s := run_state cfg empty ops in
   snd (get_scoped cfg s scope q k) = Some r ->
   exists e, In e (s_entries s) /\ (k <= e_kreq e)%nat /\ r = firstn k (e_results e).
@@ -113,6 +123,35 @@ Proof. vm_compute. reflexivity. Qed.
 
 (* ---- non-vacuity ---- *)
 
+(* the oracle premises of C07_entry_valid / C07_hit_valid are satisfiable: an executable exact
+   k-NN (insertion sort over the live documents, inner-product metric, isd q v d := d = 1 - <q,v>)
+   satisfies all three, so the theorem applies to it with no premise left *)
+Example C07_oracle_premises_satisfiable :
+  (forall c q k id d, In (id, d) (ip_knn c q k) -> exists v, c_get c id = Some v /\ ip_isd q v d) /\
+  (forall c q k, (length (ip_knn c q k) <= k)%nat) /\
+  (forall c q k id v, (1 <= k)%nat -> c_get c id = Some v -> ~ In id (map fst (ip_knn c q k)) ->
+       length (ip_knn c q k) = k /\
+       exists w, worst (ip_knn c q k) = Some w /\ dist_lt InnerProduct q v w = false).
+Proof. split; [exact ip_knn_live|split; [exact ip_knn_len|exact ip_knn_omit]]. Qed.
+
+Corollary C07_entry_valid_ip : forall (cfg : config) (ops : list eop) (e : entry),
+  let st := erun (pre_m InnerProduct) (dist_le InnerProduct) ip_knn cfg einit ops in
+  In e (s_entries (e_cache st)) -> Valid (dist_lt InnerProduct) ip_isd (e_coll st) e.
+Proof.
+  intro cfg. exact (C07_entry_valid InnerProduct ip_isd ip_knn cfg ip_knn_live ip_knn_len ip_knn_omit).
+Qed.
+
+(* a concrete engine history in which an entry survives a far insert, is served as a hit, and is
+   removed by a near insert *)
+Example C07_engine_nonvacuous :
+  let run := fun ops => erun (pre_m InnerProduct) (dist_le InnerProduct) ip_knn sat_cfg einit ops in
+  let h := [EInsert 1 [1; 0]; EInsert 2 [0; 1]; ESearch 0 [1; 0] 1; EInsert 3 [-1; 0]] in
+  length (s_entries (e_cache (run h))) = 1%nat /\
+  snd (estep (pre_m InnerProduct) (dist_le InnerProduct) ip_knn sat_cfg (run h) (ESearch 0 [1; 0] 1)) = RHit [(1%N, 0)] /\
+  length (s_entries (e_cache (run (h ++ [EInsert 4 [2; 0]])))) = 0%nat.
+Proof. vm_compute. auto. Qed.
+
+
 (* the interleaving semantics has runs in which the store is skipped, and runs in which it is not *)
 Example C07_interleaving_nonvacuous :
   let fs := fun (c : collection) (q : vec) (k : nat) => firstn k (map (fun p => (fst p, 1 - dot q (snd p))) c) in
@@ -134,9 +173,10 @@ Proof. vm_compute. auto. Qed.
 
 Print Assumptions C07_prefilter_sound.
 Print Assumptions C07_entry_valid.
+Print Assumptions C07_entry_valid_ip.
 Print Assumptions C07_hit_valid.
 Print Assumptions C07_scope.
-Print Assumptions C07_k_monotone.
+Print Assumptions C07_k_monotone_partial.
 Print Assumptions C07_no_store_after_invalidate.
 Print Assumptions C07_hit_same_or_similar.
 Print Assumptions C07_saturation_refuted.
